@@ -21,6 +21,13 @@
 (q) no XML output template of a serializer spells a fixed prefix other than xml/xmlns.
 (r) a Store.bind that takes a prefix away from its namespace is followed by a rebuild of the longest-namespace trie.
 (s) the three writers of N3 prefixed names (turtle, longturtle getQName, normalizeUri) sanitise the local part alike.
+(t) a writer of N3 prefixed names reaches `prefix:local` only for a local part that is a PN_LOCAL (guards evaluated on probe strings).
+(u) ... and only with a prefix that is a PN_PREFIX, or one that went through the serializer's renaming method, which renames every such prefix.
+(v) the JSON-LD context generated from the bindings leaves out the prefixes '_' and ''.
+(w) the longest-namespace look-up in the trie is given (and honours) a predicate "this namespace is bound".
+(x) from_n3 undoes every escape the writers of prefixed names apply to the local part.
+(y) the prefix of the RDF names in RDF/XML: looked up (no constant-only slot), tested for '', declared under that very prefix.
+(z) no xmlns declaration for the XML namespace; its names are written xml:name.
 """
 from __future__ import annotations
 
@@ -364,23 +371,39 @@ def memo_tuple_coherence(repo: Repo, rep: Report) -> None:
     """(f) the memoised (prefix, namespace, local) triple is internally coherent"""
     ns = repo.mod("rdflib.namespace")
     rep.rule("C17.f-memo-tuple-coherent",
-             "in compute_qname / compute_qname_strict the tuple written to a memo is (P, N, L) where, inside the computing block, every "
+             "in compute_qname / compute_qname_strict the tuple written to a memo is (P, N, L); the write is made only after a membership test of that memo for the IRI has answered no "
+             "(every path to it takes such a branch edge, however the test is spelt: `if iri not in memo:` + block, `if iri in memo: return` + the rest), and in what runs from there on every "
              "`P = self.store.prefix(X)` has X == N, every `self.bind(P, Y)` has Y == N, and N, L come from the same split of the IRI: the "
              "prefix returned for an IRI is the prefix bound to the namespace returned with it", floor=4)
+    from vlib import h_c17 as H
+
     for mname in ("compute_qname", "compute_qname_strict"):
         f = ns.func("NamespaceManager." + mname)
+        g = None
         for n in own_nodes(f):
             if not (isinstance(n, ast.Assign) and isinstance(n.targets[0], ast.Subscript) and _self_attr(n.targets[0].value) and isinstance(n.value, ast.Tuple) and len(n.value.elts) == 3):
                 continue
             P, N, L = [norm(e) for e in n.value.elts]
-            # the enclosing computing block
-            blk = None
-            for p in ns.parents(n):
-                if isinstance(p, ast.If) and any(n is x for s in p.body for x in ast.walk(s)) and "not in" in norm(p.test):
-                    blk = p
-            if blk is None:
-                raise AnalysisError("%s: memo write is not inside an `if uri not in memo` block" % mname)
-            stmts = [x for s in blk.body for x in ast.walk(s)]
+            # the computing region: what is executed after the membership test of this memo for this key has answered "not there".
+            # The write is made only on a miss (every path from the entry to it takes a branch edge that implies `key not in memo`,
+            # whichever way the test is spelt: `if k not in M:` + body, `if k in M: return ..` + the rest, `if not (k in M)` ...), and the
+            # region is everything that can run from such an edge on.
+            memo_attr, key = _self_attr(n.targets[0].value), norm(n.targets[0].slice)
+
+            def miss(e: ast.AST, memo_attr=memo_attr, key=key):
+                if isinstance(e, ast.Compare) and len(e.ops) == 1 and isinstance(e.ops[0], (ast.In, ast.NotIn)) \
+                        and _self_attr(e.comparators[0]) == memo_attr and norm(e.left) == key:
+                    return isinstance(e.ops[0], ast.NotIn)
+                return None
+
+            if g is None:
+                g = CFG(f)
+            edges = H.fact_edges(g, miss)
+            wn = g.node_of(n, ns)
+            if not edges or wn in H.reach_edges(g, [g.entry], cut=edges):
+                raise AnalysisError("%s: the memo write `%s` is not made only after a test `%s in self.%s` has answered no" % (mname, norm(n)[:60], key, memo_attr))
+            region = H.reach_edges(g, [b for _, b in edges])
+            stmts = [x for nid in sorted(region) for x in H.cfg_node_exprs(g.nodes[nid])]
             for x in stmts:
                 if isinstance(x, ast.Assign) and norm(x.targets[0]) == P and isinstance(x.value, ast.Call) and norm(x.value.func) == "self.store.prefix":
                     a = norm(x.value.args[0])
@@ -421,7 +444,10 @@ def shared_manager_rule(repo: Repo, rep: Report) -> None:
         raise AnalysisError("no Graph(store=self.store, ...) view construction found in ConjunctiveGraph/Dataset")
     # normalizeUri joins prefix and local name of ONE compute_qname result
     f = ns.func("NamespaceManager.normalizeUri")
-    joins = [c for c in ast.walk(f) if isinstance(c, ast.Call) and isinstance(c.func, ast.Attribute) and c.func.attr == "join" and c.args and isinstance(c.args[0], ast.List)]
+    from vlib import h_c17 as H
+
+    # every expression that builds `e1:e2[:..]` - ":".join([..]), "%s:%s" % (..), f"{..}:{..}", .format, `+` (H.joined_by)
+    joins = [(c, es) for c in ast.walk(f) for es in [H.joined_by(c, ":")] if es is not None]
     def roots_of(e: ast.expr, seen: frozenset = frozenset()) -> set[str]:
         """the subscripted variables a part of the qname is derived from (through local names: `name = parts[-1]`, `name = name.replace(...)`)"""
         if isinstance(e, ast.Subscript):
@@ -438,8 +464,7 @@ def shared_manager_rule(repo: Repo, rep: Report) -> None:
                     out |= roots_of(d, seen | {e.id})
                 return out
         return {"?" + norm(e)}
-    for j in joins:
-        elts = j.args[0].elts
+    for j, elts in joins:
         roots = set()
         for e in elts:
             roots |= roots_of(e)
@@ -452,11 +477,13 @@ def shared_manager_rule(repo: Repo, rep: Report) -> None:
                "the qname is assembled from parts of different computations (%s): the prefix may belong to a shorter namespace than the one the local name was cut from" % sorted(roots), node=j)
 
 
+from vlib.core import layer as _layer  # noqa: E402
+
 _run_base = run
 
 
 def run(repo: Repo, rep: Report) -> None:  # noqa: F811
-    _run_base(repo, rep)
+    _layer(rep, _run_base, repo)
     from vlib import memo
 
     rep.rule("C17.h-namespace-memos-key-complete",
@@ -488,7 +515,7 @@ _run_base2 = run
 
 
 def run(repo: Repo, rep: Report) -> None:  # noqa: F811
-    _run_base2(repo, rep)
+    _layer(rep, _run_base2, repo)
     rep.rule("C17.j-prefix-registered-for-every-non-verb-term",
              "TurtleSerializer / LongTurtleSerializer.preprocessTriple register the prefix of every term of a triple (self.getQName) except where a `continue` skips it; the skips are "
              "for PREDICATE-position special cases only (the `a` keyword, a predicate in the base namespace): each `continue` is control-dependent on `i == VERB`. label() writes `a` "
@@ -1168,7 +1195,7 @@ def rule_s_pname_sanitised(repo: Repo, rep: Report) -> None:
 
 
 def run(repo: Repo, rep: Report) -> None:  # noqa: F811
-    _run_base3(repo, rep)
+    _layer(rep, _run_base3, repo)
     rule_k_prefix_identity(repo, rep)
     rule_l_override_false(repo, rep)
     rule_m_memo_validated(repo, rep)
@@ -1180,11 +1207,676 @@ def run(repo: Repo, rep: Report) -> None:  # noqa: F811
     rule_s_pname_sanitised(repo, rep)
 
 
+_run_base4 = run
+
+
+# ======================================================================================================================
+# rules t - z: one structural necessary condition per defect repaired by the second audit round (F229 - F235).
+# Several of them ask what a guard of the code answers for a probe value (vlib.h_c17.StrEval: the regular expressions and
+# string tests are the library's own, taken from the source; only `re`/`str` of the standard library run, on the probes).
+# ======================================================================================================================
+_GOOD = ("ex", "http://example.org/", "abc")
+_BAD_LOCAL = (("-1", "begins with '-'"), (".x", "begins with '.'"), ("x.", "ends with '.'"), ("100%", "has a '%' that is no %HH escape"),
+              ("a%zzb", "has a '%' that is no %HH escape"))
+_BAD_PREFIX = (("3d", "begins with a digit"), ("v1.", "ends with '.'"), ("_", "'_:x' is a blank node label"), ("_x", "begins with '_'"),
+               ("-a", "begins with '-'"))
+
+
+def _n3_pname_writers(repo: Repo) -> list[tuple["object", str, ast.FunctionDef]]:
+    """the functions that write a Turtle / N3 prefixed name from compute_qname(): what URIRef.n3(namespace_manager) calls on the
+    manager, and every function of a serializer module that calls compute_qname itself"""
+    typed = repo.typed
+    out = []
+    tm = repo.mod("rdflib.term")
+    ns = repo.mod("rdflib.namespace")
+    called = set()
+    for q, fn in tm.functions():
+        if q.endswith(".n3"):
+            for c in own_nodes(fn):
+                if isinstance(c, ast.Call):
+                    for full in typed.callees(tm.name, c):
+                        if full.startswith("rdflib.namespace.NamespaceManager."):
+                            called.add(full.rsplit(".", 1)[1])
+    for m in sorted(called):
+        if ns.has("NamespaceManager." + m):
+            out.append((ns, "NamespaceManager." + m, ns.func("NamespaceManager." + m)))
+    if not out:
+        raise AnalysisError("no n3() method of rdflib.term calls a NamespaceManager method any more (typed resolution lost?)")
+    for mname in sorted(m for m in repo.modules if m.startswith("rdflib.plugins.serializers")):
+        mod = repo.mod(mname)
+        for q, fn in mod.functions():
+            if any(isinstance(c, ast.Call) and isinstance(c.func, ast.Attribute) and c.func.attr == "compute_qname" for c in own_nodes(fn)) \
+                    and _pname_returns(repo, mod, fn):
+                out.append((mod, q, fn))
+    # (a site that vanished shows in the floors of the rules)
+    return out
+
+
+def _qname_hook(probe):
+    def hook(c: ast.Call):
+        from vlib import h_c17 as H
+
+        if isinstance(c.func, ast.Attribute) and c.func.attr == "compute_qname":
+            return probe
+        return H.UNK
+    return hook
+
+
+def _pname_returns(repo: Repo, mod, fn: ast.AST) -> list[ast.Return]:
+    """the return statements that answer '<prefix>:<local>' of a compute_qname() result"""
+    from vlib import h_c17 as H
+
+    ev = H.probe_env(repo, mod, fn, _qname_hook(_GOOD))
+    rets = []
+    for r in own_nodes(fn):
+        if isinstance(r, ast.Return) and r.value is not None and H.pname_parts(r.value) is not None:
+            pe, le = H.pname_parts(r.value)
+            # (rule f reports a prefix that is not the one compute_qname answered together with the local part)
+            if ev.ev(le) == _GOOD[2] or ev.ev(pe) == _GOOD[0]:
+                rets.append(r)
+    return rets
+
+
+def _rejected(repo: Repo, mod, fn: ast.AST, g: CFG, ret: ast.Return, probe) -> bool:
+    """with compute_qname() answering `probe`, no path reaches the return: an `if` on the way sends the probe elsewhere"""
+    from vlib import h_c17 as H
+
+    ev = H.probe_env(repo, mod, fn, _qname_hook(probe))
+
+    def decide(node):
+        t = H.truth(ev.ev(node.ast.test))
+        return None if t is H.UNK else t
+
+    return g.node_of(ret, mod) not in H.reach_decided(g, decide)
+
+
+def rule_t_pn_local(repo: Repo, rep: Report) -> None:
+    """(t) what follows the namespace is written after the prefix only if it is a PN_LOCAL"""
+    RID = "C17.t-prefixed-name-only-for-a-pn-local"
+    rep.rule(RID,
+             "every function that writes a Turtle / N3 prefixed name from compute_qname()'s (prefix, namespace, local) - NamespaceManager.normalizeUri (URIRef.n3) and each "
+             "serializer function that calls compute_qname - reaches its `prefix:local` return only when the local part can be one: for a local part that begins with '-' or "
+             "'.', ends with '.', or has a '%' that is no %HH escape, an `if` on every path to that return (a test of the local part: a pattern of the library applied to it, "
+             "startswith / endswith ...) answers so that the <iri> form / None is returned instead. compute_qname cuts the IRI where an NCName can start, which is not where a "
+             "PN_LOCAL can: bind('ex', 'http://e/t/'); URIRef('http://e/t/-1').n3(nm) = 'ex:-1', <http://e/t/100%> is written ex:100% - no Turtle reader accepts either", floor=15)
+    for mod, q, fn in _n3_pname_writers(repo):
+        rep.analysed("%s:%s" % (mod.rel, q))
+        rets = _pname_returns(repo, mod, fn)
+        g = CFG(fn)
+        for ret in rets:
+            for loc, what in _BAD_LOCAL:
+                ok = _rejected(repo, mod, fn, g, ret, (_GOOD[0], _GOOD[1], loc))
+                rep.ob(RID, mod, q, "local part %r (%s) -> %s" % (loc, what, norm(ret.value)), ok,
+                       "not written as a prefixed name" if ok else
+                       "a local part like %r (%s) still reaches `%s`: %s:%s is no prefixed name of Turtle / SPARQL and is not read back as the IRI" % (loc, what, norm(ret), _GOOD[0], loc), node=ret)
+
+
+def _prefix_sanitiser_ok(repo: Repo, mod, q: str, fn: ast.AST, pos: int) -> list[tuple[str, bool, str]]:
+    """obligations on a method the prefix is passed through (serializer.addNamespace): for a prefix that is no PN_PREFIX the branch that
+    replaces it is taken, and the replacement is not a concatenation with the prefix as it is"""
+    from vlib import h_c17 as H
+
+    ps = H.params_of(fn)
+    if pos >= len(ps):
+        return [("parameter %d of %s" % (pos, q), False, "the prefix is not a parameter of the method it is passed to")]
+    p = ps[pos]
+    rewrites = [i for i in own_nodes(fn) if isinstance(i, ast.If) and any(
+        isinstance(a, ast.Assign) and any(isinstance(t, ast.Name) and t.id == p for t in a.targets) for s in i.body for a in ast.walk(s))]
+    # (also an `if` around the table write that the later `p = table.get(p, p)` reads)
+    out = []
+    for bad, what in _BAD_PREFIX:
+        ev = H.StrEval(repo, mod, {p: bad})
+        taken = [i for i in rewrites if H.truth(ev.ev(i.test)) is True]
+        out.append(("prefix %r (%s) is replaced in %s" % (bad, what, q), bool(taken),
+                    "the branch that gives the namespace another prefix is taken" if taken else
+                    "a bound prefix like %r (%s) is not replaced: `@prefix %s: <..>` and %s:x are written, which no Turtle reader accepts%s" % (
+                        bad, what, bad, bad, " (it is read as a blank node)" if bad == "_" else "")))
+    def concat_of_p(b: ast.AST) -> bool:
+        """a string built with the prefix as it is as one of its pieces (`"p" + prefix`, "p%s" % prefix, f"p{prefix}", .format, join)"""
+        if isinstance(b, ast.BinOp) and isinstance(b.op, (ast.Add, ast.Mod)) and any(isinstance(x, ast.Name) and x.id == p for x in (b.left, b.right)):
+            return True
+        parts = H.str_parts(b)
+        return parts is not None and len(parts) >= 2 and any(isinstance(x, ast.Name) and x.id == p for x in parts)
+
+    raw = [b for i in rewrites for s in i.body for b in ast.walk(s) if concat_of_p(b)]
+    out.append(("the replacement prefix in %s" % q, not raw,
+                "built character by character / not from the prefix as it is" if not raw else
+                "the replacement is `%s`: the prefix that is no PN_PREFIX concatenated as it is - for 'v1.' the new prefix 'pv1.' is none either" % norm(raw[0])))
+    if not rewrites:
+        out.append(("%s replaces the prefix" % q, False, "no branch of the method assigns another prefix"))
+    return out
+
+
+def rule_u_pn_prefix(repo: Repo, rep: Report) -> None:
+    """(u) the prefix written before ':' is a PN_PREFIX"""
+    from vlib import h_c17 as H
+
+    RID = "C17.u-prefixed-name-only-with-a-pn-prefix"
+    rep.rule(RID,
+             "every function that writes a Turtle / N3 prefixed name from compute_qname() (as in rule t): for a bound prefix that is no PN_PREFIX ('3d', 'v1.', '_', '-a') either an "
+             "`if` on every path to the `prefix:local` return sends it elsewhere (<iri> form), or the prefix written is the answer of a method of the class that the bound prefix "
+             "was passed through on every path (addNamespace), which for each such prefix takes the branch that assigns another one and does not build that one by concatenating the "
+             "prefix as it is. bind() accepts any string: bind('3d', N) makes URIRef(N+'p').n3(nm) '3d:p', bind('_', N) makes it '_:p' - a blank node label", floor=17)
+    typed = repo.typed
+    for mod, q, fn in _n3_pname_writers(repo):
+        rets = _pname_returns(repo, mod, fn)
+        g = CFG(fn)
+        for ret in rets:
+            pe, _ = H.pname_parts(ret.value)
+            escaped = [(bad, what) for bad, what in _BAD_PREFIX if not _rejected(repo, mod, fn, g, ret, (bad, _GOOD[1], _GOOD[2]))]
+            if not escaped:
+                for bad, what in _BAD_PREFIX:
+                    rep.ob(RID, mod, q, "prefix %r (%s) -> %s" % (bad, what, norm(ret.value)), True, "not written as a prefixed name", node=ret)
+                continue
+            # the prefix written is what a method of the class made of the bound one
+            san = None
+            if isinstance(pe, ast.Name):
+                ev = H.probe_env(repo, mod, fn, _qname_hook(_GOOD))
+                for st in own_nodes(fn):
+                    if isinstance(st, ast.Assign) and any(isinstance(t, ast.Name) and t.id == pe.id for t in st.targets) and isinstance(st.value, ast.Call) \
+                            and isinstance(st.value.func, ast.Attribute) and isinstance(st.value.func.value, ast.Name) and st.value.func.value.id == "self":
+                        pos = [i for i, a in enumerate(st.value.args) if ev.ev(a) == _GOOD[0]]
+                        if pos and g.must_pass_before(g.node_of(ret, mod), {g.node_of(st, mod)}):
+                            for full in typed.callees(mod.name, st.value):
+                                mq = H.module_qual(repo, full)
+                                if mq is not None and mq[0].has(mq[1]):
+                                    san = (mq[0], mq[1], mq[0].func(mq[1]), pos[0] + 1)
+            if san is None:
+                for bad, what in escaped:
+                    rep.ob(RID, mod, q, "prefix %r (%s) -> %s" % (bad, what, norm(ret.value)), False,
+                           "a bound prefix like %r (%s) still reaches `%s` as it is: %s:%s is no prefixed name and is not read back as the IRI" % (
+                               bad, what, norm(ret), bad, _GOOD[2]), node=ret)
+                continue
+            smod, sq, sfn, spos = san
+            rep.analysed("%s:%s" % (smod.rel, sq))
+            for what, ok, why in _prefix_sanitiser_ok(repo, smod, sq, sfn, spos):
+                rep.ob(RID, smod, sq, what, ok, why, node=sfn)
+
+
+def rule_v_jsonld_context_terms(repo: Repo, rep: Report) -> None:
+    """(v) the context generated from the bindings has no term '_' (nor '')"""
+    from vlib import h_c17 as H
+
+    RID = "C17.v-generated-jsonld-context-leaves-out-unusable-prefixes"
+    rep.rule(RID,
+             "serializers/jsonld.py: a comprehension / loop over `<graph>.namespaces()` whose (prefix, namespace) pairs become the terms of a generated @context filters out "
+             "the prefix '_' and the empty prefix (its `if` conditions are false for them) and keeps an ordinary pair. With a term '_', the compact form of N+'s' is '_:s', "
+             "which every JSON-LD reader takes for a blank node identifier: g.bind('_', N); g.serialize(format='json-ld', auto_compact=True) reads back with blank nodes in "
+             "place of the IRIs", floor=2)
+    jm = repo.mod("rdflib.plugins.serializers.jsonld")
+    n = 0
+    for q, fn in jm.functions():
+        for c in own_nodes(fn):
+            gens = []
+            if isinstance(c, (ast.GeneratorExp, ast.ListComp, ast.DictComp, ast.SetComp)):
+                gens = [(g.target, g.iter, list(g.ifs)) for g in c.generators]
+            elif isinstance(c, ast.For):
+                # `for p, n in g.namespaces(): if <cond>: table[p] = n`
+                conds = [s.test for s in c.body if isinstance(s, ast.If)] if len(c.body) == 1 else []
+                gens = [(c.target, c.iter, conds)]
+            for tgt, it, ifs in gens:
+                if not (isinstance(it, ast.Call) and isinstance(it.func, ast.Attribute) and it.func.attr == "namespaces" and isinstance(tgt, ast.Tuple)
+                        and len(tgt.elts) == 2 and all(isinstance(x, ast.Name) for x in tgt.elts)):
+                    continue
+                n += 1
+                rep.analysed("%s:%s" % (jm.rel, q))
+                pn, nn = tgt.elts[0].id, tgt.elts[1].id  # type: ignore[attr-defined]
+
+                def kept(pfx: str, nsiri: str):
+                    ev = H.StrEval(repo, jm, {pn: pfx, nn: nsiri})
+                    v = True
+                    for t in ifs:
+                        tv = H.truth(ev.ev(t))
+                        if tv is False:
+                            return False
+                        if tv is H.UNK:
+                            v = H.UNK
+                    return v
+
+                if kept("ex", "http://example.org/") is not True:
+                    raise AnalysisError("%s: the conditions of the context generated from %s are not decided for an ordinary binding" % (q, norm(it)))
+                for pfx, what in (("_", "'_:s' is a blank node identifier"), ("", "the empty string is no term")):
+                    ok = kept(pfx, "http://example.org/") is False
+                    rep.ob(RID, jm, q, "prefix %r in the context generated from %s" % (pfx, norm(it)), ok, "left out" if ok else
+                           "a binding of the prefix %r becomes a term of the generated context (%s): IRIs of its namespace are written %s:local and do not read back as "
+                           "those IRIs" % (pfx, what, pfx), node=c)
+    # (a context that is no longer generated from graph.namespaces() shows in the floor)
+
+
+def rule_w_trie_answer_bound(repo: Repo, rep: Report) -> None:
+    """(w) a namespace taken from the trie is a bound one"""
+    from vlib import h_c17 as H
+    from vlib import truthy
+
+    RID = "C17.w-longest-namespace-from-the-trie-is-a-bound-one"
+    rep.rule(RID,
+             "NamespaceManager keeps in its trie every namespace it was asked about (insert_strie of the split of the IRI asked, in compute_qname* / normalizeUri), bound or not. "
+             "Every call of the trie look-up (get_longest_namespace) from the manager therefore gives a predicate that says whether a namespace is bound - a lambda / function "
+             "whose body compares a Store.prefix() look-up with None - and the look-up answers a key only under a call of that predicate on the key, passing it on when it "
+             "recurses. Otherwise bind('ex', 'http://e/'); a failed compute_qname_strict('http://e/a/1') leaves 'http://e/a/' in the trie; then curie('http://e/a/b', "
+             "generate=False) raises KeyError instead of 'ex:a/b', and URIRef('http://e/a/b').n3(nm) binds a new prefix ns1", floor=3)
+    ns = repo.mod("rdflib.namespace")
+    typed = repo.typed
+    methods = ns.methods("NamespaceManager")
+    LOOK = "get_longest_namespace"
+    lf = ns.func(LOOK)
+    rep.analysed("%s:%s" % (ns.rel, LOOK))
+    # the trie also holds namespaces that were only looked at: an insertion of (a part of) the split of a parameter
+    looked = []
+    for mn, m in methods.items():
+        ps = {a.arg for a in m.args.args[1:]}
+        split_names = H.derived_names(m, lambda e: isinstance(e, ast.Call) and isinstance(e.func, ast.Name) and e.func.id == "split_uri" and bool(
+            e.args) and isinstance(e.args[0], ast.Name) and e.args[0].id in ps)
+        for c in own_nodes(m):
+            if isinstance(c, ast.Call) and isinstance(c.func, ast.Name) and c.func.id in ("insert_strie", "insert_trie") and any(
+                    isinstance(x, ast.Name) and x.id in split_names for a in c.args for x in ast.walk(a)):
+                looked.append((mn, c))
+    if not looked:
+        rep.ob(RID, ns, "NamespaceManager", "no namespace that was only looked at is put in the trie", True, "the trie holds bound namespaces only", node=ns.cls("NamespaceManager"))
+        return
+    lparams = [a.arg for a in lf.args.args]
+    nonec = truthy.none_constants(ns)
+
+    def bound_predicate(e: ast.AST) -> bool:
+        body = None
+        if isinstance(e, ast.Lambda):
+            body = e.body
+        elif isinstance(e, ast.Name) and ns.has(e.id):
+            body = ns.func(e.id)
+        elif isinstance(e, ast.Attribute) and _self_attr(e) in methods:
+            body = methods[_self_attr(e)]
+        if body is None:
+            return False
+        for c in ast.walk(body):
+            if isinstance(c, ast.Compare) and len(c.ops) == 1 and isinstance(c.ops[0], (ast.Is, ast.IsNot)) and truthy._is_none(c.comparators[0], nonec):
+                for x in ast.walk(c.left):
+                    if isinstance(x, ast.Call) and isinstance(x.func, ast.Attribute) and x.func.attr == "prefix" and (
+                            any(f.endswith(".prefix") and typed.is_subclass(f.rsplit(".", 1)[0], "rdflib.store.Store") for f in typed.callees(ns.name, x))
+                            or norm(x.func.value) == "self.store"):
+                        return True
+        return False
+
+    for mn, m in methods.items():
+        for c in own_nodes(m):
+            if not (isinstance(c, ast.Call) and isinstance(c.func, ast.Name) and c.func.id == LOOK):
+                continue
+            extra = list(c.args[2:]) + [k.value for k in c.keywords if k.arg in lparams[2:]]
+            ok = any(bound_predicate(e) for e in extra)
+            rep.ob(RID, ns, "NamespaceManager." + mn, c, ok,
+                   "only a namespace that has a prefix is taken from the trie" if ok else
+                   "the longest namespace of the trie is taken whether it is bound or not (the trie also has every namespace %s was asked about): a namespace that was merely "
+                   "looked at hides the bound shorter one - KeyError with generate=False, a new nsN prefix otherwise" % looked[0][0], node=c)
+    # the look-up honours the predicate
+    pred_params = lparams[2:]
+    loop_keys = {t.id for f in own_nodes(lf) if isinstance(f, ast.For) for t in ast.walk(f.target) if isinstance(t, ast.Name)}
+    key_returns = [r for r in own_nodes(lf) if isinstance(r, ast.Return) and isinstance(r.value, ast.Name) and r.value.id in loop_keys]
+    if not key_returns:
+        raise AnalysisError("%s: the return of a key of the trie was not recognised" % LOOK)
+
+    def asks(cj: ast.AST, key: str) -> bool:
+        if isinstance(cj, ast.Call) and isinstance(cj.func, ast.Name) and cj.func.id in pred_params and len(cj.args) == 1 and norm(cj.args[0]) == key:
+            return True
+        if isinstance(cj, ast.BoolOp) and isinstance(cj.op, ast.Or):
+            rest = [v for v in cj.values if not asks(v, key)]
+            return len(rest) < len(cj.values) and all(
+                isinstance(v, ast.Compare) and len(v.ops) == 1 and isinstance(v.ops[0], ast.Is) and isinstance(v.left, ast.Name) and v.left.id in pred_params
+                and truthy._is_none(v.comparators[0], nonec) for v in rest)
+        return False
+
+    for r in key_returns:
+        ok = any(asks(cj, r.value.id) for iff in H.in_true_branch(ns, r, lf) for cj in H.conjuncts(iff.test))
+        rep.ob(RID, ns, LOOK, r, ok, "answered only if the predicate accepts the key" if ok else
+               "a key of the trie is answered without asking the caller's predicate: an unbound namespace can be the answer", node=r)
+    for c in own_nodes(lf):
+        if isinstance(c, ast.Call) and isinstance(c.func, ast.Name) and c.func.id == LOOK:
+            passed = [norm(a) for a in c.args[2:]] + [norm(k.value) for k in c.keywords]
+            ok = bool(pred_params) and any(p in passed for p in pred_params)
+            rep.ob(RID, ns, LOOK, c, ok, "the predicate is passed on" if ok else "the recursion into the sub-trie drops the predicate", node=c)
+
+
+def rule_x_from_n3_unescapes(repo: Repo, rep: Report) -> None:
+    """(x) from_n3 undoes the escapes the writers of prefixed names apply to the local part"""
+    from vlib import h_c17 as H
+
+    RID = "C17.x-from-n3-decodes-the-local-part-escapes"
+    rep.rule(RID,
+             "rdflib.util.from_n3 is the inverse of n3(): for every escape c -> \\c that a writer of prefixed names (rule t's functions) applies to the local part "
+             "(`.replace(c, '\\\\' + c)`), the branch of from_n3 that splits 'prefix:local' turns the escaped local part back before it is appended to the namespace: evaluated on "
+             "'f' + esc + 'x', the statements between the split and the return give 'f' + c + 'x' to the returned IRI. URIRef('http://example.org/f(x)').n3(nm) is 'ex:f\\(x\\)'; "
+             "from_n3 of that returned <http://example.org/f\\(x\\)>", floor=2)
+    pairs = set()
+    for mod, q, fn in _n3_pname_writers(repo):
+        der = H.derived_names(fn, lambda e: isinstance(e, ast.Call) and isinstance(e.func, ast.Attribute) and e.func.attr == "compute_qname")
+        for c in own_nodes(fn):
+            if isinstance(c, ast.Call) and isinstance(c.func, ast.Attribute) and c.func.attr == "replace" and len(c.args) == 2 and all(
+                    isinstance(a, ast.Constant) and isinstance(a.value, str) for a in c.args):
+                r = c.func.value
+                while isinstance(r, ast.Call) and isinstance(r.func, ast.Attribute):
+                    r = r.func.value
+                if isinstance(r, ast.Name) and r.id in der:
+                    pairs.add((c.args[0].value, c.args[1].value))
+    if len(pairs) < 2:
+        raise AnalysisError("the escapes of the local part in the writers of prefixed names were not recognised: %s" % sorted(pairs))
+    um = repo.mod("rdflib.util")
+    fn = um.func("from_n3")
+    rep.analysed("%s:from_n3" % um.rel)
+    ps = set(H.params_of(fn))
+    splits = [a for a in own_nodes(fn) if isinstance(a, ast.Assign) and isinstance(a.targets[0], ast.Tuple) and len(a.targets[0].elts) == 2
+              and all(isinstance(x, ast.Name) for x in a.targets[0].elts) and isinstance(a.value, ast.Call) and isinstance(a.value.func, ast.Attribute)
+              and a.value.func.attr in ("split", "partition") and isinstance(a.value.func.value, ast.Name) and a.value.func.value.id in ps
+              and a.value.args and isinstance(a.value.args[0], ast.Constant) and a.value.args[0].value == ":"]
+    if not splits:
+        raise AnalysisError("from_n3: the split of 'prefix:local' was not found")
+    for sp in splits:
+        blk = None
+        par = um.parent.get(id(sp))
+        for f in ("body", "orelse", "finalbody"):
+            b = getattr(par, f, None)
+            if isinstance(b, list) and any(s is sp for s in b):
+                blk = b
+        if blk is None:
+            raise AnalysisError("from_n3: block of the split not found")
+        after = blk[[i for i, s in enumerate(blk) if s is sp][0] + 1:]
+        pn, ln = sp.targets[0].elts[0].id, sp.targets[0].elts[1].id  # type: ignore[attr-defined]
+        def run_block(ev, stmts):
+            """the string values that go into the returned term, or None when no return is reached on a decided path"""
+            for st in stmts:
+                if isinstance(st, (ast.Assign, ast.AnnAssign)) and st.value is not None:
+                    tg = st.targets if isinstance(st, ast.Assign) else [st.target]
+                    v = ev.ev(st.value)
+                    for t in tg:
+                        for nm in H.target_names(t):
+                            ev.env[nm] = v if isinstance(t, ast.Name) else H.UNK
+                elif isinstance(st, ast.If):
+                    tv = H.truth(ev.ev(st.test))
+                    if tv is H.UNK:
+                        raise AnalysisError("from_n3: `if %s` after the split of 'prefix:local' is not decided for a probe" % norm(st.test)[:60])
+                    r = run_block(ev, st.body if tv else st.orelse)
+                    if r is not None:
+                        return r
+                elif isinstance(st, ast.Return) and st.value is not None:
+                    vals = [ev.ev(x) for x in ast.walk(st.value) if isinstance(x, (ast.Name, ast.Call, ast.BinOp, ast.Subscript))]
+                    return [v for v in vals if isinstance(v, str) and v != _GOOD[0]]
+                elif not isinstance(st, (ast.Expr, ast.Pass, ast.Assert)):
+                    raise AnalysisError("from_n3: statement form %s after the split of 'prefix:local' is not modelled" % type(st).__name__)
+            return None
+
+        for c, esc in sorted(pairs):
+            ev = H.StrEval(repo, um, {pn: _GOOD[0], ln: "f" + esc + "x"})
+            got = run_block(ev, after)
+            if got is None:
+                raise AnalysisError("from_n3: no return follows the split of 'prefix:local'")
+            want = "f" + c + "x"
+            ok = bool(got) and all(v.endswith(want) for v in got)
+            rep.ob(RID, um, "from_n3", "local part %r of a prefixed name (written for %r)" % ("f" + esc + "x", want), ok,
+                   "decoded to %r" % want if ok else
+                   "the local part goes into the IRI as %s: the escape %r that n3() writes for %r is not undone, from_n3(x.n3(nm), nsm=nm) != x" % (
+                       got if got else "a value the statements do not decide", esc, c), node=sp)
+
+
+def _is_emptiness_test(test: ast.AST, what: str) -> bool:
+    """the expression (normalised text `what`) is truth-tested or compared with '' somewhere in the condition"""
+    for x in ast.walk(test):
+        if isinstance(x, ast.UnaryOp) and isinstance(x.op, ast.Not) and norm(x.operand) == what:
+            return True
+        if isinstance(x, ast.BoolOp) and any(norm(v) == what for v in x.values):
+            return True
+        if isinstance(x, ast.Compare) and len(x.ops) == 1 and isinstance(x.ops[0], (ast.Eq, ast.NotEq)) and (
+                norm(x.left) == what and isinstance(x.comparators[0], ast.Constant) and x.comparators[0].value == ""
+                or norm(x.comparators[0]) == what and isinstance(x.left, ast.Constant) and x.left.value == ""):
+            return True
+    return norm(test) == what
+
+
+def rule_y_rdf_prefix_not_empty(repo: Repo, rep: Report) -> None:
+    """(y) the prefix the RDF names are written with is not the empty one"""
+    from vlib import h_c17 as H
+
+    RID = "C17.y-prefix-of-the-rdf-names-looked-up-tested-declared"
+    rep.rule(RID,
+             "RDF/XML serializers: a prefix taken from compute_qname_strict(<a constant name of the RDF namespace>) - the prefix rdf:about, rdf:resource, rdf:datatype, rdf:nodeID "
+             "are written with - is tested for being empty (truth test / comparison with '') on every path from the look-up on, before it is declared and used: an XML attribute "
+             "without a prefix is in no namespace. g.bind('', RDF); g.serialize(format='pretty-xml') wrote about=\"..\" datatype=\"..\", which reads back as other triples "
+             "(format='xml' wrote '<:RDF' when 'rdf' was taken as well). And the RDF namespace is declared under that very prefix: on every path from the look-up on there is "
+             "a write `table[<that prefix>] = <the namespace of the same look-up>` into an xmlns table - a declaration under a fixed 'rdf' while the names are written with the "
+             "prefix the manager answered (bind('r', RDF)) leaves <r:RDF> undeclared. And a class that writes its tags with string templates fills the prefix slot of a name "
+             "(`%s:RDF`, ` %s:about=`) from a value that has a look-up among its definitions (followed through locals and self attributes): a slot that only ever receives "
+             "constants is a hard-wired prefix (rule q), right only while the graph binds it to that namespace - g.bind('rdf', other, replace=True); "
+             "g.serialize(format='xml') failed with a bare AssertionError", floor=12)
+    nsm = repo.mod("rdflib.namespace")
+    rdfns = H.namespace_of_container(repo, nsm, "RDF")
+    if not rdfns:
+        raise AnalysisError("rdflib.namespace.RDF: namespace IRI not resolved")
+    n = 0
+    for mname in sorted(m for m in repo.modules if m.startswith("rdflib.plugins.serializers")):
+        mod = repo.mod(mname)
+        for q, fn in mod.functions():
+            g = None
+            lev = None
+            for st in own_nodes(fn):
+                if not isinstance(st, ast.Assign) or len(st.targets) != 1:
+                    continue
+                v = st.value
+                idx = None
+                if isinstance(v, ast.Subscript) and isinstance(v.slice, ast.Constant):
+                    idx, v = v.slice.value, v.value
+                if not (isinstance(v, ast.Call) and isinstance(v.func, ast.Attribute) and v.func.attr in ("compute_qname_strict", "compute_qname") and v.args):
+                    continue
+                # a constant of the RDF namespace?
+                s = H.constant_iri_namespace(repo, mod, v.args[0], [rdfns])
+                if s is None:
+                    if lev is None:
+                        lev = H.probe_env(repo, mod, fn, None)
+                    cv = lev.ev(v.args[0])
+                    s = rdfns if isinstance(cv, str) and cv.startswith(rdfns) else None
+                if s != rdfns:
+                    continue
+                t = st.targets[0]
+                nsn = None
+                if idx is None and isinstance(t, ast.Tuple) and len(t.elts) == 3:
+                    pfx = norm(t.elts[0])
+                    nsn = {x.id for x in ast.walk(t.elts[1]) if isinstance(x, ast.Name)}
+                elif idx == 0:
+                    pfx = norm(t)
+                else:
+                    continue
+                n += 1
+                rep.analysed("%s:%s" % (mod.rel, q))
+                if g is None:
+                    g = CFG(fn)
+                tests = {nd.id for nd in g.nodes if nd.kind == "test" and isinstance(nd.ast, (ast.If, ast.While)) and _is_emptiness_test(nd.ast.test, pfx)}
+                ok = bool(tests) and g.must_pass_after(g.node_of(st, mod), tests, skip_exc=True)
+                rep.ob(RID, mod, q, st, ok, "%s is tested for being empty before it is used" % pfx if ok else
+                       "the prefix bound to the RDF namespace (%s) is used for the RDF names without a test for the empty prefix: with bind('', RDF) the attributes rdf:about / "
+                       "rdf:resource / rdf:datatype are written without a prefix, i.e. in no namespace" % pfx, node=st)
+                if lev is None:
+                    lev = H.probe_env(repo, mod, fn, None)
+                decls = set()
+                for nd in g.nodes:
+                    w = nd.ast
+                    if nd.kind == "stmt" and isinstance(w, ast.Assign) and len(w.targets) == 1 and isinstance(w.targets[0], ast.Subscript) and norm(w.targets[0].slice) == pfx:
+                        wv = lev.ev(w.value)
+                        if (nsn and H.names_in(w.value) & nsn) or (isinstance(wv, str) and wv == rdfns):
+                            decls.add(nd.id)
+                ok2 = bool(decls) and g.must_pass_after(g.node_of(st, mod), decls, skip_exc=True)
+                rep.ob(RID, mod, q, "the RDF namespace is declared under %s (looked up by %s)" % (pfx, norm(st.value)), ok2,
+                       "declared under the prefix that was looked up, on every path" if ok2 else
+                       "on some path after the look-up the RDF namespace is not declared under the prefix that was looked up (%s), which is the one the RDF names are written "
+                       "with: after bind('r', RDF) the document has <r:RDF ..> and no xmlns:r" % pfx, node=st)
+    # the prefix slot of a name in a tag template is filled from a looked-up value
+    for mname in sorted(m for m in repo.modules if m.startswith("rdflib.plugins.serializers")):
+        mod = repo.mod(mname)
+        for q, fn in mod.functions():
+            cname = q.split(".")[0] if "." in q and isinstance(mod.defs.get(q.split(".")[0]), ast.ClassDef) else ""
+            for tmpl, slot, e, shown in _prefix_slots(mod, fn):
+                src = _prefix_slot_sources(mod, cname, fn, e, set())
+                if "other" in src and "lookup" not in src:
+                    continue  # filled from a parameter / a computed name: not a prefix the class chose
+                rep.analysed("%s:%s" % (mod.rel, q))
+                ok = "lookup" in src
+                rep.ob(RID, mod, q, "%s in %s, filled from %s" % (slot, shown[:50], norm(e)), ok,
+                       "the prefix has a look-up among its definitions" if ok else
+                       "the prefix slot of %s only ever receives constants (%s): a hard-wired prefix - when the graph binds it to another namespace the RDF names are written "
+                       "in that namespace (or serialisation fails)" % (slot, norm(e)), node=tmpl)
+
+
+def _prefix_slot_sources(mod, cname: str, fn: ast.AST, e: ast.AST, seen: set) -> set[str]:
+    """kinds of the definitions a value is made of: 'const', 'lookup' (of compute_qname*), 'other'; locals and self attributes are followed"""
+    key = norm(e)
+    if key in seen:
+        return set()
+    seen = seen | {key}
+    if isinstance(e, ast.Constant):
+        return {"const"}
+    if any(isinstance(c, ast.Call) and isinstance(c.func, ast.Attribute) and c.func.attr in ("compute_qname", "compute_qname_strict") for c in ast.walk(e)):
+        return {"lookup"}
+    if isinstance(e, ast.BinOp) and isinstance(e.op, (ast.Mod, ast.Add)):
+        l, r = _prefix_slot_sources(mod, cname, fn, e.left, seen), _prefix_slot_sources(mod, cname, fn, e.right, seen)
+        # ("rdf%s" % num: a constant with a counter)
+        return (l | r) - {"other"} if "const" in l else l | r
+    if isinstance(e, (ast.JoinedStr, ast.Call)):
+        # the same in another spelling: f"rdf{num}", "rdf{}".format(num), "".join(["rdf", num])
+        from vlib import h_c17 as H
+
+        parts = H.str_parts(e)
+        if parts is not None and any(not isinstance(x, str) for x in parts):
+            out0: set[str] = set()
+            for x in parts:
+                out0 |= {"const"} if isinstance(x, str) else _prefix_slot_sources(mod, cname, fn, x, seen)
+            return out0 - {"other"} if any(isinstance(x, str) for x in parts) else out0
+    if isinstance(e, ast.Tuple):
+        out: set[str] = set()
+        for x in e.elts:
+            out |= _prefix_slot_sources(mod, cname, fn, x, seen)
+        return out
+    if isinstance(e, ast.Name):
+        defs = [v for t, v in _assignments_nested(fn) if isinstance(t, ast.Name) and t.id == e.id]
+        if not defs:
+            return {"other"}
+        out = set()
+        for v in defs:
+            out |= _prefix_slot_sources(mod, cname, fn, v, seen)
+        return out
+    if _self_attr(e) and cname:
+        out = set()
+        n_defs = 0
+        for m in mod.methods(cname).values():
+            for t, v in _assignments_nested(m):
+                if _self_attr(t) == _self_attr(e):
+                    n_defs += 1
+                    out |= _prefix_slot_sources(mod, cname, m, v, seen)
+        return out if n_defs else {"other"}
+    return {"other"}
+
+
+def _prefix_slots(mod, fn: ast.AST):
+    """(template node, slot text, the expression that fills it, the template as shown) of every value that a string template
+    (%-format, f-string, str.format, `x + ":name"`: H.interpolations) puts in through str() right before ':' and a name"""
+    import re
+
+    from vlib import h_c17 as H
+
+    seen: set[int] = set()
+    for b in own_nodes(fn):
+        for e, plain, after, shown in H.interpolations(b):
+            if plain and len(after) >= 2 and after[0] == ":" and (after[1].isalpha() or after[1] == "_") and id(e) not in seen:
+                seen.add(id(e))
+                name = re.match(r"[\w.\-]+", after[1:])
+                yield b, "%s:" + (name.group(0) if name else ""), e, shown
+
+
+def rule_z_xml_namespace_not_declared(repo: Repo, rep: Report) -> None:
+    """(z) no prefix is declared for the XML namespace; its names are written xml:name"""
+    from vlib import h_c17 as H
+
+    RID = "C17.z-xml-namespace-is-never-declared"
+    rep.rule(RID,
+             "RDF/XML serializers: (1) a (prefix, namespace) pair taken from compute_qname_strict(<an IRI of the graph>) is put in a table of xmlns declarations only under "
+             "a test that the namespace is not the XML namespace (a comparison with the constant XMLNS): xml is the only prefix of that namespace and may not be declared; "
+             "(2) a class that writes element names from qname_strict() itself (no XMLWriter, whose qname() has the xml: shortcut of rule o) replaces that name under a "
+             "comparison of the IRI's namespace with XMLNS. g.add((s, URIRef(XMLNS + 'lang'), o)) without an 'xml' binding wrote xmlns:ns1=\"http://www.w3.org/XML/1998/namespace\" "
+             "and <ns1:lang>, which no XML parser accepts", floor=4)
+    nsm = repo.mod("rdflib.namespace")
+    xmlns = H.const_string(repo, nsm, ast.Name(id="XMLNS", ctx=ast.Load()))
+    if not xmlns:
+        raise AnalysisError("rdflib.namespace.XMLNS is not a constant any more")
+    rdfns = H.namespace_of_container(repo, nsm, "RDF")
+
+    def mentions_xmlns(mod, test: ast.AST, names: set[str], ops) -> bool:
+        for c in ast.walk(test):
+            if isinstance(c, ast.Compare) and len(c.ops) == 1 and isinstance(c.ops[0], ops):
+                sides = (c.left, c.comparators[0])
+                for a, b in (sides, sides[::-1]):
+                    if isinstance(a, ast.Name) and H.const_string(repo, mod, a) == xmlns and (H.names_in(b) & names):
+                        return True
+        return False
+
+    n = 0
+    for mname in sorted(m for m in repo.modules if m.startswith("rdflib.plugins.serializers")):
+        mod = repo.mod(mname)
+        for q, fn in mod.functions():
+            lev = None
+            # (1) registrations of looked-up pairs
+            unpacks = []  # (prefix name, namespace name, argument)
+            for st in own_nodes(fn):
+                if isinstance(st, ast.Assign) and len(st.targets) == 1 and isinstance(st.targets[0], ast.Tuple) and len(st.targets[0].elts) == 3 \
+                        and all(isinstance(x, ast.Name) for x in st.targets[0].elts) and isinstance(st.value, ast.Call) and isinstance(st.value.func, ast.Attribute) \
+                        and st.value.func.attr == "compute_qname_strict" and st.value.args:
+                    arg = st.value.args[0]
+                    const_ns = H.constant_iri_namespace(repo, mod, arg, [xmlns, rdfns or ""])
+                    if const_ns is None and not isinstance(arg, ast.Name):
+                        if lev is None:
+                            lev = H.probe_env(repo, mod, fn, None)
+                        if isinstance(lev.ev(arg), str):
+                            const_ns = "const"
+                    if const_ns is not None:
+                        continue  # a name of a fixed vocabulary (the RDF names): rules p and y
+                    unpacks.append((st, st.targets[0].elts[0].id, st.targets[0].elts[1].id))  # type: ignore[attr-defined]
+            for ust, pn, nn in unpacks:
+                blk_parent = mod.parent.get(id(ust))
+                for w in own_nodes(fn):
+                    if isinstance(w, ast.Assign) and len(w.targets) == 1 and isinstance(w.targets[0], ast.Subscript) and isinstance(w.targets[0].slice, ast.Name) \
+                            and w.targets[0].slice.id == pn and nn in H.names_in(w.value):
+                        # the write that belongs to this look-up: same enclosing block chain
+                        if not any(p is blk_parent for p in [mod.parent.get(id(w))] + list(mod.parents(w))):
+                            continue
+                        n += 1
+                        rep.analysed("%s:%s" % (mod.rel, q))
+                        ok = any(mentions_xmlns(mod, iff.test, {nn}, (ast.NotEq,)) for iff in H.in_true_branch(mod, w, fn))
+                        rep.ob(RID, mod, q, w, ok, "not for the XML namespace" if ok else
+                               "the pair looked up for an IRI of the graph is declared whatever the namespace: for a predicate / type in the XML namespace "
+                               "xmlns:<p>=\"%s\" is written (with a generated prefix nsN when 'xml' is not bound), which is not namespace-well-formed" % xmlns, node=w)
+            # (2) element names taken from qname_strict() by a class that writes the tags itself
+            for st in own_nodes(fn):
+                if isinstance(st, ast.Assign) and len(st.targets) == 1 and isinstance(st.targets[0], ast.Name) and isinstance(st.value, ast.Call) \
+                        and isinstance(st.value.func, ast.Attribute) and st.value.func.attr == "qname_strict" and st.value.args:
+                    n += 1
+                    rep.analysed("%s:%s" % (mod.rel, q))
+                    tn = st.targets[0].id
+                    argn = H.names_in(st.value.args[0])
+                    ok = any(isinstance(i, ast.If) and mentions_xmlns(mod, i.test, argn, (ast.Eq,)) and any(
+                        isinstance(a, ast.Assign) and any(isinstance(t, ast.Name) and t.id == tn for t in a.targets) for a in i.body) for i in own_nodes(fn))
+                    rep.ob(RID, mod, q, st, ok, "replaced by xml:<name> for an IRI of the XML namespace" if ok else
+                           "the element name is whatever qname_strict() answers: for a predicate in the XML namespace that is <nsN:name> with a generated prefix, "
+                           "which cannot be declared for that namespace", node=st)
+
+
+def run(repo: Repo, rep: Report) -> None:  # noqa: F811
+    _layer(rep, _run_base4, repo)
+    rule_t_pn_local(repo, rep)
+    rule_u_pn_prefix(repo, rep)
+    rule_v_jsonld_context_terms(repo, rep)
+    rule_w_trie_answer_bound(repo, rep)
+    rule_x_from_n3_unescapes(repo, rep)
+    rule_y_rdf_prefix_not_empty(repo, rep)
+    rule_z_xml_namespace_not_declared(repo, rep)
+
+
 _run_before_borrow = run
 
 
 def run(repo: Repo, rep: Report) -> None:  # noqa: F811
-    _run_before_borrow(repo, rep)
+    _layer(rep, _run_before_borrow, repo)
     from vlib.core import borrow
 
     borrow(repo, rep, "C17", "C03", ('C03.c',))
